@@ -343,3 +343,86 @@ def s_vec_eq(ex, callee, a, env):
     from .natives import values_equal
     r = values_equal(ex, a[0], a[1])
     return Not(r) if callee.endswith('ne') else r
+
+
+# ---- more Vec methods met in refactorings of the macro crate
+@std_native(r'^(std::vec::)?Vec(::<.*>)?::with_capacity$', 'Vec::with_capacity')
+def s_vec_with_capacity(ex, callee, a, env):
+    return mk_vec([])
+
+
+@std_native(r'^(std::vec::)?Vec(::<.*>)?::(reserve|reserve_exact|shrink_to_fit)$', 'Vec::reserve')
+def s_vec_reserve(ex, callee, a, env):
+    return UNIT
+
+
+@std_native(r'^(std::vec::)?Vec(::<.*>)?::remove$', 'Vec::remove')
+def s_vec_remove(ex, callee, a, env):
+    v, i = deref(a[0]), a[1]
+    if not isinstance(i, int):
+        i = ex.concretize(i, 0, 64)
+    if i >= len(v.items):
+        raise Panic(f'removal index (is {i}) should be < len (is {len(v.items)})')
+    return v.items.pop(i)
+
+
+@std_native(r'^(std::vec::)?Vec(::<.*>)?::insert$', 'Vec::insert')
+def s_vec_insert(ex, callee, a, env):
+    v, i = deref(a[0]), a[1]
+    if not isinstance(i, int):
+        i = ex.concretize(i, 0, 64)
+    if i > len(v.items):
+        raise Panic('insertion index out of bounds')
+    v.items.insert(i, a[2])
+    return UNIT
+
+
+@std_native(r'^(std::vec::)?Vec(::<.*>)?::(pop)$', 'Vec::pop')
+def s_vec_pop(ex, callee, a, env):
+    v = deref(a[0])
+    return Some(v.items.pop()) if v.items else NONE()
+
+
+@std_native(r'^(std::vec::)?Vec(::<.*>)?::(clear)$', 'Vec::clear')
+def s_vec_clear(ex, callee, a, env):
+    del deref(a[0]).items[:]
+    return UNIT
+
+
+@std_native(r'^(std::vec::)?Vec(::<.*>)?::(truncate)$', 'Vec::truncate')
+def s_vec_truncate(ex, callee, a, env):
+    v, n = deref(a[0]), a[1]
+    if not isinstance(n, int):
+        n = ex.concretize(n, 0, 64)
+    del v.items[n:]
+    return UNIT
+
+
+@std_native(r'^(std::vec::)?Vec(::<.*>)?::(contains)$', 'Vec::contains')
+def s_vec_contains(ex, callee, a, env):
+    from .natives import values_equal
+    v, x = deref(a[0]), a[1]
+    return any(ex.truth(values_equal(ex, y, x)) for y in v.items)
+
+
+@std_native(r'^<(std::vec::)?Vec<.*> as Extend<.*>>::extend(::<.*>)?$|^(std::vec::)?Vec(::<.*>)?::(extend_from_slice|append)$', 'Vec::extend')
+def s_vec_extend(ex, callee, a, env):
+    from . import iters
+    v = deref(a[0])
+    src = deref(a[1])
+    if isinstance(src, HVec):
+        items = list(src.items)
+        if callee.endswith('append'):
+            del src.items[:]
+    elif isinstance(src, (Slice, list)):
+        items = [clone_deep(x) for x in as_slice(src).items()]
+    else:
+        it = iters.as_iter(ex, a[1]) if hasattr(iters, 'as_iter') else a[1]
+        items = []
+        while True:
+            x = iters.pull(ex, it)
+            if x is iters.END:
+                break
+            items.append(x)
+    v.items.extend(items)
+    return UNIT
